@@ -174,7 +174,7 @@ ProjectB(ir) ==
       fseq == SetToSeq(fnames)
   IN  [secs |-> <<[name |-> SEC, size |-> Sum([i \in 1..Len(ord) |-> ByteSize(ir, ord[i])]),
                    bytes |-> FlattenSeq([i \in 1..Len(ord) |-> FlattenSeq([k \in 1..Len(ir.units[ord[i]]) |-> ir.units[ord[i]][k].by])]),
-                   blocks |-> [i \in 1..Len(ord) |-> blk(ord[i])], iann |-> <<>>, sxout |-> <<>>]>>,
+                   blocks |-> [i \in 1..Len(ord) |-> blk(ord[i])], iann |-> <<>>, sxout |-> <<>>, noaddr |-> 0]>>,
        syms |-> LET ns == SetToSeq(DOMAIN ir.sym)
                 IN  [i \in 1..Len(ns) |->
                        LET s == ir.sym[ns[i]]
